@@ -15,6 +15,7 @@ import (
 	stream_forwarding "github.com/aperturerobotics/bifrost/stream/forwarding"
 	stream_relay "github.com/aperturerobotics/bifrost/stream/relay"
 	stream_srpc_server "github.com/aperturerobotics/bifrost/stream/srpc/server"
+	stream_srpc_server_lookup "github.com/aperturerobotics/bifrost/stream/srpc/server/lookup"
 	"github.com/aperturerobotics/controllerbus/controller"
 	"github.com/aperturerobotics/controllerbus/directive"
 	"github.com/blang/semver/v4"
@@ -60,7 +61,7 @@ func (e *engine) c34Config(kind, op string, ctl handlerCtl, ctorErr error, valid
 			line = fmt.Sprintf("dispatch.%s sp=%s sl=%s sr=%s", kind, hx(x.proto), hx(x.local), hx(x.remote))
 		}
 		model := e.m.Query(line)
-		handled := false
+		handled, errored := false, false
 		impl := lib.Recover(func() string {
 			if ctl == nil || ctorErr != nil {
 				return "noctl v=" + bit(validateErr == nil)
@@ -68,6 +69,7 @@ func (e *engine) c34Config(kind, op string, ctl handlerCtl, ctorErr error, valid
 			di := &fakeInst{ctx: e.ctx, dir: link.NewHandleMountedStream(protocol.ID(x.proto), peer.ID(x.local), peer.ID(x.remote))}
 			res, err := ctl.HandleDirective(e.ctx, di)
 			if err != nil {
+				errored = true
 				return "err"
 			}
 			handled = len(res) != 0
@@ -76,7 +78,12 @@ func (e *engine) c34Config(kind, op string, ctl handlerCtl, ctorErr error, valid
 		mon := ""
 		key := "dispatch." + kind
 		want := sp.serves(x)
-		if handled && !want {
+		if errored {
+			// "Streams for other protocols or peers are left to other handlers": a handler that is
+			// not concerned returns no resolver and no error (an error is a verdict on the stream)
+			mon = fmt.Sprintf("%s handler answers a HandleMountedStream directive with an error instead of taking or leaving the stream (protocol %q local %s remote %s; configured for it: %v)", kind, x.proto, short(x.local), short(x.remote), want)
+			key += ":errors-on-stream"
+		} else if handled && !want {
 			mon = fmt.Sprintf("%s handler takes a stream it is not configured for (protocol %q local %s remote %s)", kind, x.proto, short(x.local), short(x.remote))
 			key += ":takes-foreign-stream"
 		} else if sp.proper && ctl != nil && ctorErr == nil && !handled && want {
@@ -103,11 +110,11 @@ func short(id string) string {
 }
 
 func (e *engine) runC34() {
-	e.rep.Rule = "exhaustive product, per handler, of configuration values (peer: unset / P1 / P2 / malformed text; protocol: unset / p/a / p/b / invalid UTF-8 (+ bifrost/echo, solicit:*); remote lists: empty / [P1] / [P1,P2] / [P2] / [\"\"] / [malformed]) × EVERY other field of each config message (relay target_peer_id: unset / = peer_id / other / malformed; relay target_protocol_id: unset / = protocol_id / other / invalid; accept transport_id; srpc disable_establish_link, Config.ApplyDefaults; pubsub peer argument; solicit max_hashes) × stream (protocol incl. every target protocol × local ∈ {none,P1,P2} × remote ∈ {none,P1,P2}) against the real HandleDirective of each controller; for every relay that constructs, the value it resolves is handed a stream and a spy on the bus reports the link it keeps up and the (protocol, local peer, target peer) the relayed stream is opened with; same for the srpc server's back link; distinct = distinct op line"
-	for _, k := range []string{"echo", "fwd", "relay", "accept", "srpc", "srpcraw", "pubsub", "solicit"} {
+	e.rep.Rule = "exhaustive product, per handler, of configuration values (peer: unset / P1 / P2 / malformed text; protocol: unset / p/a / p/b / invalid UTF-8 (+ bifrost/echo, solicit:*); remote lists: empty / [P1] / [P1,P2] / [P2] / [\"\"] / [malformed]) × EVERY other field of each config message (relay target_peer_id: unset / = peer_id / other / malformed; relay target_protocol_id: unset / = protocol_id / other / invalid; accept transport_id; srpc disable_establish_link, Config.ApplyDefaults; pubsub peer argument; solicit max_hashes) × stream (protocol incl. every target protocol × local ∈ {none,P1,P2} × remote ∈ {none,P1,P2}) (+ NEAR MISSES of the configured protocol on the stream side: p/a/x, p/, P/A, p/A, xp/a, bifrost/echo2, bifrost/ech, Bifrost/Echo, bifrost/echo/, Solicit:ab, BIFROST/SOLICIT, bifrost/solicit/) against the real HandleDirective of each controller, the srpc server through all three constructors (Config.BuildServer, raw NewServer, stream/srpc/server/lookup.NewController = NewServerWithMux, with server_id varied); a HandleDirective error on any stream is a violation of its own (errors-on-stream); for every relay that constructs, the value it resolves is handed a stream and a spy on the bus reports the link it keeps up and the (protocol, local peer, target peer) the relayed stream is opened with; same for the srpc server's back link; distinct = distinct op line"
+	for _, k := range []string{"echo", "fwd", "relay", "accept", "srpc", "srpclk", "srpcraw", "pubsub", "solicit"} {
 		e.rep.Require(k+".h0", k+".h1")
 	}
-	e.rep.Require("echo.noctl", "fwd.noctl", "relay.noctl", "accept.noctl", "srpc.noctl", "srpcdef.h0", "srpcdef.h1",
+	e.rep.Require("echo.noctl", "fwd.noctl", "relay.noctl", "accept.noctl", "srpc.noctl", "srpclk.noctl", "srpcdef.h0", "srpcdef.h1",
 		"relay.tproto-unset", "relay.tproto-same", "relay.tproto-other", "relay.tpeer-same", "relay.tpeer-other",
 		"relayfwd.ok", "srpcest.back", "srpcest.none", "srpcdef.defaulted", "srpcdef.own")
 	p1, p2 := mkPeer(1), mkPeer(101)
@@ -125,6 +132,11 @@ func (e *engine) runC34() {
 		return "", false
 	}
 	protos := []string{"", "p/a", "p/b", "\xff"}
+	// near misses of the configured protocol IDs, on the stream side only: a longer ID with the
+	// configured one as prefix, a proper prefix of it, and case variants (a HasPrefix / EqualFold /
+	// Contains comparison instead of == takes one of them)
+	nearProtos := []string{"p/a/x", "p/", "P/A", "p/A", "xp/a"}
+	nearEcho := []string{"bifrost/echo2", "bifrost/ech", "Bifrost/Echo", "bifrost/echo/"}
 	var streams, echoStreams, solStreams []strm
 	streamPeers := []string{"", p1.id, p2.id}
 	if e.a.Scale > 1 { // thorough: a peer no configuration mentions, and a non-multihash ID
@@ -132,13 +144,13 @@ func (e *engine) runC34() {
 	}
 	for _, l := range streamPeers {
 		for _, r := range streamPeers {
-			for _, p := range protos {
+			for _, p := range append(append([]string{}, protos...), nearProtos...) {
 				streams = append(streams, strm{p, l, r})
 			}
-			for _, p := range append([]string{"bifrost/echo"}, protos...) {
+			for _, p := range append(append([]string{"bifrost/echo"}, protos...), append(nearProtos[:3:3], nearEcho...)...) {
 				echoStreams = append(echoStreams, strm{p, l, r})
 			}
-			for _, p := range []string{"", "p/a", "bifrost/solicit", "bifrost/solici", "bifrost/solicit2", "solicit:", "solicit:ab12", "solicit", "xsolicit:ab"} {
+			for _, p := range []string{"", "p/a", "bifrost/solicit", "bifrost/solici", "bifrost/solicit2", "solicit:", "solicit:ab12", "solicit", "xsolicit:ab", "Solicit:ab", "BIFROST/SOLICIT", "bifrost/solicit/"} {
 				solStreams = append(solStreams, strm{p, l, r})
 			}
 		}
@@ -182,7 +194,7 @@ func (e *engine) runC34() {
 				if pr == "" {
 					// invalid config (Validate refuses it): the constructor does not check, and the
 					// handler then takes every protocol. Compared with the model, no property verdict.
-					sp = spec{proper: false, protos: protos, local: lid}
+					sp = spec{proper: false, protos: append(append([]string{}, protos...), nearProtos...), local: lid}
 				}
 				// ma.NewMultiaddr("") fails: tok=0 for both "" and "bogus"
 				e.c34Config("fwd", fmt.Sprintf("peer=%s proto=%s tset=%s tok=%s", hx(pt), hx(pr), bit(tgt != ""), bit(tgt == "/ip4/127.0.0.1/tcp/4000")), h, cerr, verr, sp, st)
@@ -373,6 +385,43 @@ func (e *engine) runC34() {
 					e.rep.Branches["srpcdef.own"]++
 				}
 				e.c34Config("srpcdef", fmt.Sprintf("peers=%s protos=%s dis=0 defs=%s", hxList(pl), hxList(prl), hxList(defs)), h, cerr, verr, sp, streams)
+			}
+		}
+	}
+	// stream/srpc/server/lookup.NewController — the second constructor (NewServerWithMux): same
+	// lists, plus server_id (the server ID of the LookupRpcService directives of incoming calls; not a filter)
+	for _, pl := range peerLists {
+		for pri, prl := range protoLists {
+			for _, srvid := range []string{"", "srv"} {
+				if srvid != "" && pri > 3 {
+					continue
+				}
+				conf := &stream_srpc_server_lookup.Config{PeerIds: pl, ProtocolIds: prl, ServerId: srvid}
+				verr := conf.Validate()
+				srv, cerr := stream_srpc_server_lookup.NewController(e.bus, e.le, conf)
+				proper := true
+				var lids []string
+				for _, t := range pl {
+					id, ok := idOf(t)
+					if !ok || id == "" {
+						proper = false
+					}
+					lids = append(lids, id)
+				}
+				for _, p := range prl {
+					if !protoOK(p) {
+						proper = false
+					}
+				}
+				sp := spec{proper: proper, protos: prl, locals: lids}
+				if !proper {
+					sp.protos = nil
+				}
+				var h handlerCtl
+				if cerr == nil {
+					h = srv
+				}
+				e.c34Config("srpclk", fmt.Sprintf("peers=%s protos=%s srvid=%s", hxList(pl), hxList(prl), hx(srvid)), h, cerr, verr, sp, streams)
 			}
 		}
 	}
